@@ -48,6 +48,7 @@ fn oracle(name: &str, ok: bool, why: &str, shape: &Shape, step: usize, extra: &s
 
 pub fn run(seed: u64, thorough: bool) {
     let mut rng = Rng::new(seed ^ 0x4157);
+    purity_across_hashes(&mut rng);
     let mut shapes = vec![
         Shape { hash: "sha256_128", levels: vec![(3, 1)] },
         Shape { hash: "sha256_128", levels: vec![(3, 1), (3, 1)] },
@@ -163,6 +164,59 @@ pub fn run(seed: u64, thorough: bool) {
         Line::new("info").str("what", "history").str("hash", shape.hash).raw("variants", &shape.variants_json())
             .num("steps", step as u64).num("released", released).num("total", total).emit();
     }
+}
+
+/// C09: the result of key generation and signing depends on (hash, parameter list, seed / key, message)
+/// only: the same seed bytes used with several hash functions, interleaved with other seeds, in
+/// several orders and from another thread, give the same bytes as the first call.
+fn purity_across_hashes(rng: &mut Rng) {
+    let hashes = ["sha256_256", "shake256_256", "sha256_192", "shake256_192", "sha256_128", "shake256_128"];
+    let levels = vec![(3u32, 1u32), (4u32, 1u32)];
+    let s1 = rng.bytes(32);
+    let mut s2 = s1.clone();
+    s2[31] ^= 1; // shares all but one bit with s1
+    let s3 = rng.bytes(32);
+    let mut calls: Vec<(&'static str, Vec<u8>)> = Vec::new();
+    for h in hashes.iter() {
+        for sd in [&s1, &s2, &s3] {
+            calls.push((h, sd.clone()));
+        }
+    }
+    let run_one = |h: &'static str, sd: &Vec<u8>| -> (Out<(Vec<u8>, Vec<u8>)>, Out<Vec<u8>>) {
+        let k = keygen(h, &levels, sd);
+        let s = match &k {
+            Out::Ok((sk, _)) => sign(h, sk, b"purity", true, None).0,
+            _ => Out::Err,
+        };
+        (k, s)
+    };
+    let first: Vec<_> = calls.iter().map(|(h, sd)| run_one(h, sd)).collect();
+    // reversed order
+    let mut ok_rev = true;
+    for (i, (h, sd)) in calls.iter().enumerate().rev() {
+        ok_rev &= run_one(h, sd) == first[i];
+    }
+    // seed-major order, from another thread
+    let calls2 = calls.clone();
+    let levels2 = levels.clone();
+    let third = std::thread::spawn(move || {
+        let mut order: Vec<usize> = (0..calls2.len()).collect();
+        order.sort_by_key(|i| (i % 3, *i));
+        order.into_iter().map(|i| {
+            let (h, sd) = &calls2[i];
+            let k = keygen(h, &levels2, sd);
+            let s = match &k {
+                Out::Ok((sk, _)) => sign(h, sk, b"purity", true, None).0,
+                _ => Out::Err,
+            };
+            (i, (k, s))
+        }).collect::<Vec<_>>()
+    }).join().unwrap_or_default();
+    let ok_thread = third.len() == calls.len() && third.iter().all(|(i, r)| *r == first[*i]);
+    let shape = Shape { hash: "sha256_256", levels };
+    oracle("pure_across_hashes_and_orders", ok_rev && ok_thread && first.iter().all(|(k, _)| matches!(k, Out::Ok(_))),
+           "the same (hash, parameters, seed) gave different keys or signatures after other calls", &shape, 0,
+           &format!("reversed_order_equal={} other_thread_equal={}", ok_rev, ok_thread));
 }
 
 #[allow(clippy::too_many_arguments)]
